@@ -27,21 +27,28 @@ type IE struct {
 // from the TS 24.501 clause 8 tables). Unknown IEIs are an error.
 func ParseOptional(b []byte, table []IEDef) ([]IE, error) {
 	var out []IE
+	last := -1
 	for len(b) > 0 {
 		var def *IEDef
+		at := -1
 		for i := range table {
 			d := &table[i]
 			if d.Fmt == FmtTVHalf {
 				if b[0]>>4 == d.IEI {
-					def = d
+					def, at = d, i
 				}
 			} else if b[0] == d.IEI {
-				def = d
+				def, at = d, i
 			}
 		}
 		if def == nil {
 			return out, fmt.Errorf("unknown IEI %#x in the optional part (rest %x)", b[0], b)
 		}
+		// a sender puts the IEs in the order of the message table, each at most once (TS 24.007 11.2.4 / TS 24.501 clause 8)
+		if at <= last {
+			return out, fmt.Errorf("IE %s (IEI %#x) is repeated or out of the order of the message table", def.Name, def.IEI)
+		}
+		last = at
 		switch def.Fmt {
 		case FmtTVHalf:
 			out = append(out, IE{*def, []byte{b[0] & 0xf}})
